@@ -10,6 +10,12 @@ from edb.common import topological as T
 from edb.common.ordered import OrderedSet
 
 USE_OSET = len(sys.argv) > 2 and sys.argv[2] == 'oset'
+USE_STR = len(sys.argv) > 2 and sys.argv[2] == 'str'   # string keys: hash-seed sensitive if any set() sneaks in
+NAMES = ['alpha', 'bravo', 'charlie', 'delta', 'echo', 'foxtrot', 'golf', 'hotel', 'india', 'juliet', 'kilo', 'lima']
+
+
+def sk(k):
+    return f'{NAMES[k % len(NAMES)]}{k}' if USE_STR else k
 
 
 def parse(line):
@@ -34,17 +40,22 @@ def wrap(xs):
 
 def run(allow, nodes):
     g = {}
+    back = {}
     for k, w, m, d, c in nodes:
-        g[k] = T.DepGraphEntry(item=k, deps=wrap(d), merge=wrap(m), loop_control=wrap(c),
-                               weak_deps=wrap(w))
+        back[str(sk(k))] = k
+        for x in list(w) + list(m or []) + list(d) + list(c):
+            back[str(sk(x))] = x
+        mp = lambda xs: None if xs is None else [sk(x) for x in xs]
+        g[sk(k)] = T.DepGraphEntry(item=sk(k), deps=wrap(mp(d)), merge=wrap(mp(m)),
+                                   loop_control=wrap(mp(c)), weak_deps=wrap(mp(w)))
     try:
-        out = [k for k, _ in T.sort_ex(g, allow_unresolved=allow)]
+        out = [back[str(k)] for k, _ in T.sort_ex(g, allow_unresolved=allow)]
         return 'S ' + ','.join(map(str, out))
     except T.CycleError as e:
-        return f'C {e.item}'
+        return f'C {back[str(e.item)]}'
     except T.UnresolvedReferenceError as e:
         m = re.match(r'reference to an undefined item (\S+) in (\S+)$', str(e))
-        return f'U {m.group(1)} {m.group(2)}' if m else 'U ? ?'
+        return f'U {back.get(m.group(1), m.group(1))} {back.get(m.group(2), m.group(2))}' if m else 'U ? ?'
     except Exception as e:   # noqa
         return 'E ' + type(e).__name__
 
